@@ -374,6 +374,23 @@ func TestC03Regress(t *testing.T) {
 			}
 		}
 	}
+	// A peer that stalls inside a well-formed header block until the read deadline passes has sent nothing malformed:
+	// whatever the server says (hertz answers a stalled connection with 408, or closes), it does not call the request
+	// malformed (400), and it says the same as for a peer that stalls before its first byte.
+	for _, part := range []string{"G", "GET / HTTP/1.1\r\nHo", "GET / HTTP/1.1\r\nHost: example.com\r\n"} {
+		for _, stream := range []bool{false, true} {
+			_, res, _ := server(stream, 0).Run([][]byte{[]byte(part)}, sconn.Timeout)
+			rec.Case(true, ev.Hash([]byte(part), []byte(fmt.Sprint(stream))), "server", "stall-inside-header-block")
+			if res.Panic != nil {
+				t.Errorf("panic: %v", res.Panic)
+			}
+			if strings.Contains(string(res.Output), " 400 ") {
+				msg := fmt.Sprintf("a peer that sent %q and then stalled until the read timeout is answered %q: nothing it sent is malformed", part, srvShort(res.Output))
+				ev.Fail(prop, "regress", map[string]interface{}{"input": part, "streaming": stream, "end": "timeout"}, msg)
+				t.Errorf("%s", msg)
+			}
+		}
+	}
 	for _, in := range regressClientInputs {
 		for _, stream := range []bool{false, true} {
 			o := clientRun(stream, "GET", []byte(in), nil)
@@ -396,4 +413,11 @@ func TestC03Regress(t *testing.T) {
 			}
 		}
 	}
+}
+
+func srvShort(b []byte) string {
+	if len(b) > 120 {
+		return string(b[:120]) + "..."
+	}
+	return string(b)
 }
